@@ -278,7 +278,9 @@ func (c *Conn) OpenUpstream(ctx context.Context, sessionID string, opts ...Upstr
 	upconf.SessionID = sessionID
 
 	var resp *message.UpstreamOpenResponse
+	var connEpoch uint64
 	err := c.send(ctx, func(ctx context.Context) error {
+		connEpoch = c.state.Reconnects()
 		// the connection mutex only guards the pointer: holding it across the round trip would
 		// make every other request (and Close) wait for this response, whatever their contexts
 		c.wireConnMu.Lock()
@@ -348,6 +350,7 @@ func (c *Conn) OpenUpstream(ctx context.Context, sessionID string, opts ...Upstr
 		eventDispatcher:      newEventDispatcher(),
 
 		connState:               c.state,
+		connEpoch:               connEpoch,
 		explicitlyFlushCh:       make(chan (<-chan struct{})),
 		explicitlyFlushResultCh: make(chan error),
 		Config:                  upconf,
@@ -390,6 +393,7 @@ func (c *Conn) OpenUpstream(ctx context.Context, sessionID string, opts ...Upstr
 					return
 				}
 
+				u.connEpoch = c.state.Reconnects()
 				if err := u.resume(c.currentWireConn()); err != nil {
 					u.logger.Errorf(ctx, "failed to resume upstream: %+v", err)
 					return
@@ -432,7 +436,9 @@ func (c *Conn) OpenDownstream(ctx context.Context, filters []*message.Downstream
 	}
 	alias := c.downstreamIDGenerator.Next()
 
+	var connEpoch uint64
 	err = c.send(ctx, func(ctx context.Context) error {
+		connEpoch = c.state.Reconnects()
 		c.wireConnMu.Lock()
 		dpsCh, err = c.wireConn.SubscribeDownstreamChunk(ctx, alias, downconf.QoS)
 		c.wireConnMu.Unlock()
@@ -511,6 +517,7 @@ func (c *Conn) OpenDownstream(ctx context.Context, filters []*message.Downstream
 		logger: c.logger,
 
 		connStatus: c.state,
+		connEpoch:  connEpoch,
 		state:      newStreamState(),
 		Config:     downconf,
 	}
@@ -549,6 +556,7 @@ func (c *Conn) OpenDownstream(ctx context.Context, filters []*message.Downstream
 					return
 				}
 
+				down.connEpoch = c.state.Reconnects()
 				if err := down.resume(c); err != nil {
 					down.logger.Errorf(ctx, "Failed to resume downstream: %+v", err)
 					return
